@@ -30,6 +30,7 @@ type rgRunner struct {
 	forceElim  []int // replay: the members to eliminate in the next sync (nil = choose at random)
 	forceRel   []int // replay: the members to release after the next sync (nil = choose at random)
 	forced     bool
+	backward   bool // the status went back to pending after the start (outside the histories of C19 / C20)
 }
 
 func pidStr(ids []int) string {
@@ -73,7 +74,7 @@ func (g *rgRunner) newRG(max, min int) {
 	g.alive = map[int]bool{}
 	g.nextTbl, g.nextPid = 0, 0
 	g.status = "pending"
-	g.dead, g.started, g.everMin = false, false, false
+	g.dead, g.started, g.everMin, g.backward = false, false, false, false
 	g.registered = 0
 	g.calls, g.choices, g.handed = nil, nil, nil
 	g.r = regulator.NewRegulator(
@@ -127,7 +128,20 @@ func (g *rgRunner) begin() {
 	g.initial = g.r.GetTableCount() == 0
 }
 
-func (g *rgRunner) V(prop, mon, msg string) { g.o.Violate(prop, mon, msg) }
+// V reports a monitor violation inside the domain of the property: C19 is stated for 2 <= min <= max and, like
+// C20's settling sentence, for phases that only move forward (DESIGN I13; C19.capacity_fails_after_return_to_pending
+// is the kernel-checked witness that capacity fails otherwise); C09 and break_returns_all hold on the wide domain.
+func (g *rgRunner) V(prop, mon, msg string) {
+	if prop == "C19" && (g.backward || g.min < 2 || g.min > g.max) {
+		g.o.Count("rg.outside_domain.C19")
+		return
+	}
+	if prop == "C20" && g.backward && mon != "break_returns_all" {
+		g.o.Count("rg.outside_domain.C20")
+		return
+	}
+	g.o.Violate(prop, mon, msg)
+}
 
 // ---------- C19 ----------
 
@@ -279,6 +293,10 @@ func (g *rgRunner) setStatus(s string) {
 		return
 	}
 	g.begin()
+	if s == "pending" && g.status != "pending" {
+		g.backward = true
+		g.o.Count("rg.status_back_to_pending")
+	}
 	g.status = s
 	v := regulator.CompetitionStatus(regulator.CompetitionStatus_Pending)
 	switch s {
@@ -623,6 +641,15 @@ func runRG(dir string, seed uint64, n int) {
 		min := 2 + rng.Intn(max-1)
 		if rng.Chance(0.3) {
 			max, min = 9, 6
+		} else if rng.Chance(0.12) {
+			// settings outside 2 <= min <= max (C09 and C20 say "all settings"): one-seat tables, min above max, min 0 or 1
+			max = 1 + rng.Intn(3)
+			min = rng.Intn(6)
+			o.Count("rg.odd_settings")
+		}
+		backP := 0.0
+		if rng.Chance(0.1) {
+			backP = 0.25 // a history in which the status may go back to pending (C09 only)
 		}
 		g.newRG(max, min)
 		steps := 5 + rng.Intn(40)
@@ -640,6 +667,8 @@ func runRG(dir string, seed uint64, n int) {
 					ids = append(ids, g.nextPid)
 				}
 				g.add(ids)
+			case k < 38 && g.status != "pending" && rng.Chance(backP):
+				g.setStatus("pending")
 			case k < 38:
 				switch g.status {
 				case "pending":
